@@ -14,12 +14,12 @@ RULE = ('case = 1-4 rule ASTs (C01 generator, derived rules share patterns / pre
         'whole and changes nothing): expected handler = first registered of [M, GET if M == HEAD, ANY]; otherwise 405 whose Allow header parsed as a '
         'comma-separated list is duplicate-free and equals the registered set; 404 iff the reference matcher finds no route (never 405 without a route, never '
         '404 with one). Observed on Ombott.to_route / RadiRouter.resolve and on the status line, Allow header and handler actually run through Ombott.__call__. '
-        'Non-trivial = the request exercises a fallback (HEAD->GET, ->ANY), a 405, a case-folded method name, or a route whose table was overwritten / reduced; '
+        'Plus: an overwrite=True registration on one thread against a request on another under every single-preemption schedule (answer must come from the old or the new handler). Non-trivial = the request exercises a fallback (HEAD->GET, ->ANY), a 405, a case-folded method name, or a route whose table was overwritten / reduced; '
         'distinct by case hash + request.')
 ASSUMPTIONS = ['route selection itself is C01; here paths are exact instantiations or clear misses, empty-binding verdicts are skipped',
                'a route whose methods were all removed still exists (405 with an empty Allow), as the property says 404 is for paths that match no route']
 
-VERBS = ['GET', 'POST', 'PUT', 'DELETE', 'HEAD', 'PATCH', 'OPTIONS', 'ANY', 'FOO']
+VERBS = ['GET', 'POST', 'PUT', 'DELETE', 'HEAD', 'PATCH', 'OPTIONS', 'ANY', 'FOO', 'M-SEARCH', 'VERSION-CONTROL', 'X.PING', 'SEARCH', 'GET2', "A!B"]
 
 
 def spell(m, k):
@@ -227,9 +227,68 @@ def run(ctx):
                 case = {'asts': [[['lit', '/r/'], ['w', 'x', None, None]]], 'choice': [], 'spell': 0, 'events': steps + reqs + tail}
                 ctx.guarded(check_case, case)
         ctx.count('method_subset_grid')
+        for reg, over, req in ((['GET'], ['GET'], 'GET'), (['GET', 'POST'], ['POST'], 'POST'), (['GET', 'ANY'], ['GET'], 'GET'), (['GET'], ['GET', 'PUT'], 'HEAD'),
+                               (['ANY'], ['ANY'], 'DELETE')):
+            ctx.guarded(check_concurrent_overwrite, {'registered': reg, 'overwrite': over, 'request': req})
     n = 1500 if ctx.tier == "quick" else 20000
     ctx.hyp(case_st(), check_case, n)
 
 
+def check_concurrent_overwrite(ctx, case):
+    """A registration with overwrite=True running on one thread while another thread's request for that verb is being routed:
+    the request is answered by the old or by the new handler, never by a 405 / fallback (every single-preemption schedule)."""
+    import ombott
+    from vlib.sched import Scheduler, BIG
+    from checks.c08_threads import relevant
+    verbs, over, req = case['registered'], case['overwrite'], case['request']
+
+    def fresh():
+        app = ombott.Ombott()
+        box = {}
+        for v in verbs:
+            app.route('/r/<x>', method=v, callback=(lambda v=v: (lambda **kw: box.__setitem__('ran', 'old-' + v) or 'old-' + v))())
+        return app, box
+
+    def run(schedule):
+        app, box = fresh()
+        res = {}
+
+        def registrar():
+            app.route('/r/<x>', method=list(over), callback=lambda **kw: box.__setitem__('ran', 'new') or 'new', overwrite=True)
+
+        def requester():
+            res['r'] = call_app(app, make_environ(req, '/r/1'))
+        sc = Scheduler([registrar, requester], schedule, relevant)
+        sc.run()
+        for e in sc.errors:
+            if e is not None:
+                raise CheckFailure(f'thread raised {fmt_exc(e)} under schedule {schedule}')
+        r = res['r']
+        M = req.upper()
+        cands = [M] + (['GET'] if M == 'HEAD' else []) + ['ANY']
+        before = next((c for c in cands if c in verbs), None)
+        after = next((c for c in cands if c in set(verbs) | set(over)), None)
+        ok_bodies = set()
+        if before:
+            ok_bodies.add('new' if False else 'old-' + before)
+        if after:
+            ok_bodies.add('new' if after in over else 'old-' + after)
+        if before is None:
+            ok_bodies.add('405')
+        got = box.get('ran') if r.code == 200 else str(r.code)
+        if got not in ok_bodies:
+            raise CheckFailure(f'route with {verbs}, overwrite of {over} running concurrently, request {req}: answered {r.status!r} (handler {box.get("ran")}), '
+                               f'allowed outcomes {sorted(ok_bodies)}; schedule {schedule}; Allow={r.header("Allow")!r}')
+        ctx.evals += 1
+        ctx.nontrivial('conc:' + repr((verbs, over, req, schedule)))
+        return sc.yields
+    y0 = run([[0, BIG]])[0]
+    for k in range(0, y0 + 1):
+        run([[0, k], [1, BIG], [0, BIG]])
+    ctx.count('concurrent_overwrite_schedules', y0 + 1)
+
+
 def replay(ctx, case):
+    if 'registered' in case:
+        return check_concurrent_overwrite(ctx, case)
     check_case(ctx, case)
